@@ -517,6 +517,13 @@ func genTokGroups(r *rng.R) [][][]byte {
 }
 
 func unitTokBytes(w *casefile.Writer, r *rng.R, n int) {
+	// the witnesses of Props.v C03_tokens_unpack_value_or_error_refuted / C03_tokens_unpack_malformed, on the real code
+	for _, buf := range [][]byte{{1}, {1, 2, 3}, {2, 0, 0, 0, 5, 6, 0xff, 0xff, 0xff, 0xff, 0, 0}, {9, 0, 0, 0, 1, 2}} {
+		offs, err, pan := blockUnpackSafe(buf)
+		w.Add(fmt.Sprintf("CTokDec %s %s 0 DPanic", bl(buf), dres(bl(offs), err, pan)), "bytes/tokens-malformed", true,
+			map[string]any{"buf": buf, "kind": "refutation-witness"}, map[string]any{"outcome": outcomeClass(err, pan)})
+		w.Count("tokens-dec:witness-" + outcomeClass(err, pan))
+	}
 	for i := 0; i < n; i++ {
 		groups := genTokGroups(r)
 		data := frac.VerifC03PackTokens(groups)
